@@ -302,8 +302,15 @@ impl<F: Float, L: Label + std::fmt::Debug> TreeNode<F, L> {
                 let w = weight_on_right_side / total_weight;
                 let score = w * left_score + (1.0 - w) * right_score;
 
-                // Take the midpoint from this value and the next one as split_value
-                split_value = (split_value + sorted_index.sorted_values[i + 1].1) / F::cast(2.0);
+                // Take the midpoint from this value and the next one as split_value. For
+                // neighbouring floating point values the midpoint can round onto the upper
+                // value (or overflow), which would send both values to the left subtree. Keep
+                // the lower value in that case: under `<=` it still separates the two.
+                let next_value = sorted_index.sorted_values[i + 1].1;
+                let midpoint = (split_value + next_value) / F::cast(2.0);
+                if midpoint >= split_value && midpoint < next_value {
+                    split_value = midpoint;
+                }
 
                 // override best indices when score improved
                 best = match best.take() {
@@ -642,7 +649,7 @@ fn make_prediction<F: Float, L: Label>(
 ) -> L {
     if node.leaf_node {
         node.prediction.clone()
-    } else if x[node.feature_idx] < node.split_value {
+    } else if x[node.feature_idx] <= node.split_value {
         make_prediction(x, node.left_child.as_ref().unwrap())
     } else {
         make_prediction(x, node.right_child.as_ref().unwrap())
